@@ -13,6 +13,7 @@
 #   argument handed to encoder and decoder, header version actually written, response layout actually decoded,
 #   message format the REAL Producer builds.  End-to-end frames (Producer -> KafkaClient -> bytes handed to the
 #   broker client) are parsed by both grammar parsers and must satisfy `format_matches_version`.
+import os
 import random
 import struct
 
@@ -1241,6 +1242,46 @@ def probe_overlap_race(x_outcome=(1,)):
     return observed, trace
 
 
+# ------------------------------------------------------------------ translator tie (tie A of DESIGN.md 10.2b)
+ENCODER_API = {"encode_api_versions_request": "api_versions", "encode_metadata_request": "metadata",
+               "encode_consumermetadata_request": "find_coordinator", "encode_heartbeat_request": "heartbeat",
+               "encode_leave_group_request": "leave_group", "encode_join_group_request": "join_group",
+               "encode_sync_group_request": "sync_group", "encode_offset_request": "list_offsets",
+               "encode_offset_fetch_request": "offset_fetch", "encode_offset_commit_request": "offset_commit",
+               "encode_fetch_request": "fetch"}
+
+
+def translator_tie(ck):
+    """Props/C04gen.v (what the committed encoder terms compute: hard obligations about committed files) and, per run,
+    source -> term -> equal to the committed term.  Returns the set of API names whose tie is NOT intact although a
+    committed term exists (tie B then gets a larger sample).  Never a violation by itself."""
+    import enc_tie
+    ok, log = ck.make_soft("Props/C04gen.vo")
+    if not ok:
+        ck.cov["translator_tie"] = {"state": "unavailable: Props/C04gen.v does not build", "log": log[-800:]}
+        return set(ENCODER_API.values())
+    ck.props("C04gen")
+    try:
+        r = enc_tie.check(vlib.REPO)
+    except Exception as e:  # noqa
+        ck.cov["translator_tie"] = {"state": "unavailable: %r" % (e,)}
+        return set(ENCODER_API.values())
+    intact = sorted(fn for fn, st in r["status"].items() if st == "intact")
+    ck.cov["translator_tie"] = {
+        "state": "intact for %d of %d encoders" % (len(intact), len(r["status"])),
+        "source": os.path.join(vlib.REPO, "afkak/kafkacodec.py"), "per_encoder": r["status"],
+        "dropped_by_translator": r["notes"], "scratch_dir": os.path.relpath(r["dir"], vlib.ROOT),
+        "cached_result": r.get("cached", False)}
+    ck.cov["obligations"] += len(intact)
+    ck.cov["discharged"] += len(intact)
+    ck.cov["theorems"] += [{"name": "gen_%s_is_ast (per run, %s)" % (fn.lstrip("_"), os.path.relpath(r["dir"], vlib.ROOT)),
+                            "axioms": [], "accepted": True} for fn in intact]
+    ck.cov["trusted_base"].append("translator harness/py2enc.py (struct.pack formats read as Prim.pack_list, the _util writers as the "
+                                  "Prim writers, dict iteration = insertion order, += / append+join / + as concatenation in evaluation "
+                                  "order; type guards and None-defaults dropped)")
+    return {api for fn, api in ENCODER_API.items() if r["status"].get(fn) != "intact"}
+
+
 # ------------------------------------------------------------------ the check
 def run(ck):
     vlib.import_repo()
@@ -1249,6 +1290,7 @@ def run(ck):
     logging.getLogger("afkak").propagate = False
     ck.build([MODEL])
     ck.props()
+    tie_down = translator_tie(ck)
     rnd = random.Random(ck.seed)
     g = Gen(rnd)
     scale = 1 if ck.tier == "quick" else 12
@@ -1259,6 +1301,9 @@ def run(ck):
     sp_cases, sp_impl, sp_meta = [], [], []
     for api in APIS:
         n = (260 if api.name == "produce" else 120) * scale
+        if api.name in tie_down:          # two-ties rule: the translator tie is down for this encoder, tie B carries it alone
+            n *= 4
+            ck.hist("cases_added_because_translator_tie_is_down_" + api.name, 3 * n // 4)
         for _ in range(n):
             a = api.gen(g)
             tr = api.run_impl(a)
